@@ -515,6 +515,68 @@ fn corpus() -> Vec<(String, String)> {
 }
 
 // ------------------------------------------------------------------------------------------------
+// primitives and public helper functions compared one by one (boundary inputs the composite rarely hits)
+
+fn prim_streams(run: &mut Run, rng: &mut Rng, n: usize) {
+    let nums = ["0", "5", "05", "+5", "++5", "-0", "-1", "255", "256", "65535", "65536", "4294967295", "4294967296",
+        "18446744073709551615", "18446744073709551616", "99999999999999999999999", "", "+", " 5", "5 ", "5a", "a", "1_0", "0x10", "1e3", "1.0", "+0", "000"];
+    let mut texts: Vec<String> = nums.iter().map(|s| s.to_string()).collect();
+    let alphabet = [" ", "\t", "\x0b", "\x0c", "\r", "a", "b", "9", "0", "+", "/", ":", ";", "=", "apt", "APT", "Apt", "96", "rtx", " ", "  "];
+    for _ in 0..n {
+        let k = rng.range(0, 8) as usize;
+        let mut t = String::new();
+        for _ in 0..k { t.push_str(&rng.pick(&alphabet).replace("\\t", "\t").replace("\\x0b", "\u{b}").replace("\\x0c", "\u{c}").replace("\\r", "\r")); }
+        texts.push(t);
+    }
+    for t in &texts {
+        let e = format!(".{}", enc(t)); // leading dot keeps the empty string a token
+        let so = |o: Option<u64>| o.map(|n| n.to_string()).unwrap_or("-".into());
+        run.case("prim", &format!("p u8 {e}"), &so(t.parse::<u8>().ok().map(|n| n as u64)), true);
+        run.case("prim", &format!("p u16 {e}"), &so(t.parse::<u16>().ok().map(|n| n as u64)), true);
+        run.case("prim", &format!("p u32 {e}"), &so(t.parse::<u32>().ok().map(|n| n as u64)), true);
+        run.case("prim", &format!("p u64 {e}"), &so(t.parse::<u64>().ok()), true);
+        run.case("prim", &format!("p ws {e}"), &list("^", t.split_whitespace().map(enc).collect()), true);
+        run.case("prim", &format!("p trim {e}"), &format!("[{}]", enc(t.trim())), true);
+        run.case("prim", &format!("p slash {e}"), &t.split('/').map(|x| format!("[{}]", enc(x))).collect::<Vec<_>>().join("^"), true);
+        run.case("prim", &format!("p colon {e}"), &attr_s(&Attribute::from_line(t)), true);
+        run.case("prim", &format!("p apt {e}"), &so(rustrtc::rtx::parse_apt(t).map(|n| n as u64)), true);
+    }
+    run.count_n("prim_texts", texts.len() as u64);
+    for (a, b) in [("opus", "OPUS"), ("Telephone-Event", "telephone-event"), ("rtx", "RTX "), ("", ""), ("VP8", "vp9"), ("k", "K")] {
+        run.case("prim", &format!("p ci .{}", enc(&format!("{a}|{b}"))), &(a.eq_ignore_ascii_case(b) as u8).to_string(), true);
+    }
+    // apt maps / audio capabilities / video clocks read back from sections
+    let fmtps = ["97 apt=96", "97 apt=96;rtx-time=3000", "97 rtx-time=3000;apt=96", "97 APT=96", "97 apt= 96 ", "97  apt=96", "97 apt=300", "97 apt=",
+        "x apt=96", "97", "97 apt=96 ", "256 apt=1", "99 apt=98", "97 apt=100", "111 minptime=10;useinbandfec=1", "97 apt=9x;apt=96", "+97 apt=+96"];
+    let rtpmaps = ["111 opus/48000/2", "0 PCMU/8000", "0 PCMU/8000/1", "8 PCMA", "9 G722/x", "101 telephone-event/8000", "111 OPUS/48000/x", "111  opus/48000/2",
+        "96 VP8/90000", "97 rtx/90000", "96 RTX/90000", "96 H264/x", "300 x/1", "x y/1", "18 /8000", "111 opus/48000/2/9", "96 VP8/4294967296"];
+    let fbs = ["111 transport-cc", "96 nack", "96 nack pli", "* nack", "x y", "96"];
+    for _ in 0..n {
+        let kind = if rng.chance(1, 2) { MediaKind::Audio } else { MediaKind::Video };
+        let mut m = MediaSection::new(kind, "0");
+        let nf = rng.range(0, 5);
+        for _ in 0..nf { m.formats.push((*rng.pick(&["0", "8", "9", "18", "96", "97", "101", "111", "x", "300", "+8", "08", "35"])).to_string()); }
+        let na = rng.range(0, 7);
+        for _ in 0..na {
+            let (k, v) = match rng.below(4) { 0 => ("fmtp", *rng.pick(&fmtps)), 1 | 2 => ("rtpmap", *rng.pick(&rtpmaps)), _ => ("rtcp-fb", *rng.pick(&fbs)) };
+            m.attributes.push(Attribute::new(k, if rng.chance(1, 15) { None } else { Some(v.to_string()) }));
+        }
+        let attrs = list("^", m.attributes.iter().map(attr_s).collect());
+        let mut am: Vec<(u8, u8)> = rustrtc::rtx::extract_rtx_apt_map_from_attrs(&m.attributes).into_iter().collect();
+        am.sort();
+        run.case("aptmap", &format!("p {attrs}"), &list(",", am.iter().map(|(r, p)| format!("{r}>{p}")).collect()), !am.is_empty());
+        let ms = media_s(&m, false);
+        let caps = m.to_audio_capabilities();
+        run.case("acaps", &format!("p {ms}"), &list("+", caps.iter().map(|a| format!("{},{},{},{},{},{}", a.payload_type, enc(&a.codec_name), a.clock_rate, a.channels,
+            enc_opt(&a.fmtp), list("^", a.rtcp_fbs.iter().map(|f| enc(f)).collect()))).collect()), !caps.is_empty());
+        let pt = *rng.pick(&[96u8, 97, 0, 35]);
+        let clock = m.to_video_capabilities().into_iter().find(|c| c.payload_type == pt).map(|c| c.clock_rate).unwrap_or(90_000);
+        run.case("vclock", &format!("p {ms} {pt}"), &clock.to_string(), kind == MediaKind::Video);
+    }
+    run.count_n("helper_sections", n as u64);
+}
+
+// ------------------------------------------------------------------------------------------------
 
 pub fn run(args: &Args) {
     let mut rt = super::c09::Rt::new();
@@ -570,5 +632,7 @@ pub fn run(args: &Args) {
         round_trip_text(&mut run, &format!("mal:{}:{}", args.seed, i), "malformed", &text);
     }
     run.count_n("malformed_texts", nm);
+    // (4) primitives / helper functions
+    prim_streams(&mut run, &mut rng, if args.tier_thorough { 5000 } else { 500 });
     run.finish();
 }
